@@ -23,6 +23,9 @@ type Hist struct {
 	// LenBetween calls Len() on the value under construction between builder steps (a size query
 	// on an incomplete value must not disturb the completed one).
 	LenBetween bool
+	// LateGrow: a conntrack action is attached to its packet-out first and receives its nested
+	// actions afterwards (the container must size and embed the child as it is when encoded).
+	LateGrow bool
 }
 
 func u(n *wire.N, k string) uint64 { return n.U[k] }
